@@ -81,6 +81,19 @@ def gen_corpus(rng, n_random):
             if f(b[i]) != b[i]:
                 b[i] = f(b[i])
                 out.append(("header-byte-%d-%s" % (i, what), 0, bytes(b)))
+    # several header defects at once (every subset of: magic, declared size, version, generation), so that
+    # which defect decides the error kind is exercised as well
+    BAD = {"m1": [MAGIC[1] ^ 0x100], "size": [0, 15, 71], "ver": [0], "gen": [0]}
+    names = sorted(BAD)
+    for mask in range(1, 16):
+        if bin(mask).count("1") < 2:
+            continue
+        chosen = [names[k] for k in range(4) if mask >> k & 1]
+        for pick in range(3):
+            kw = {nm: BAD[nm][pick % len(BAD[nm])] for nm in chosen}
+            body = record(rand_record(rng)) if pick else bytes(56)
+            out.append(("defects-" + "+".join("%s=%s" % (nm, kw[nm]) for nm in chosen), 0, header(**kw) + body))
+    out.append(("magic-then-zeros", 0, header()[:8] + bytes(64)))
     out.append(("old-magic-doc-bytes", 0, bytes([0x41, 0x4D, 0x5A, 0x4E, 0x43, 0x42, 0x02, 0x00]) + valid[8:]))
     out.append(("text", 0, b"foobarbaz"))
     out.append(("missing", 1, b""))
